@@ -336,6 +336,9 @@ func c09() []*Ob {
 					}
 				}
 			}},
+		{Prop: "C09", ID: "C09.8", Engine: "ACK(recover)", Floor: 2,
+			Desc:  "a call that panicked is a failed call: every repo function with an error result that recovers from a panic in a deferred closure (and does not panic again) reports it — its error result is a named result and the closure assigns it on the recovered branch; with unnamed results the function returns the zero values after the recovery, i.e. (nil, nil): a store-side panic during Bulk would be taken for an accepted bulk by sendBulkToHost and the replica counted as written",
+			Check: func(c *Ctx) { recoveredIsReported(c) }},
 		{Prop: "C09", ID: "C09.7", Engine: "PROV", Floor: 1,
 			Desc: "the written-bits of one bulk never leak into another: the write status that StoreDocuments hands to storeDocs is created by newBulkWriteStatus inside that call (or, if it comes from somewhere else, is reset on every path before its first use), so a replica or tier that accepted an earlier payload is never skipped for this one",
 			Check: func(c *Ctx) {
@@ -406,5 +409,74 @@ func c09() []*Ob {
 					}
 				}
 			}},
+	}
+}
+
+// recoveredIsReported: rule body of C09.8.
+func recoveredIsReported(c *Ctx) {
+	isRecover := func(cl ssa.CallInstruction) bool { return CallName(cl) == "builtin.recover" }
+	n := 0
+	for _, fn := range c.P.Funcs {
+		if !c.P.InRepo(fn) || fn.Blocks == nil {
+			continue
+		}
+		ei := ErrorResultIndex(fn)
+		if ei < 0 {
+			continue
+		}
+		for _, d := range InstrsIn(fn, func(in ssa.Instruction) bool { _, ok := in.(*ssa.Defer); return ok }) {
+			df := d.(*ssa.Defer)
+			mc, ok := df.Call.Value.(*ssa.MakeClosure)
+			if !ok {
+				continue
+			}
+			clo, _ := mc.Fn.(*ssa.Function)
+			if clo == nil || len(CallsIn(clo, isRecover)) == 0 {
+				continue
+			}
+			repanics := false
+			for _, b := range clo.Blocks {
+				if _, isPanic := b.Instrs[len(b.Instrs)-1].(*ssa.Panic); isPanic {
+					repanics = true
+				}
+			}
+			if repanics {
+				continue
+			}
+			n++
+			// the error operand of the return that follows a recovered panic
+			var named *ssa.Alloc
+			if fn.Recover != nil {
+				if ret, ok := fn.Recover.Instrs[len(fn.Recover.Instrs)-1].(*ssa.Return); ok && ei < len(ret.Results) {
+					if ld, ok := ret.Results[ei].(*ssa.UnOp); ok {
+						named, _ = ld.X.(*ssa.Alloc)
+					}
+				}
+			}
+			if named == nil {
+				c.Violation("ack:recover:unnamed-result:"+FuncName(fn), df.Pos(), "%s recovers from a panic but its error result is not a named result: after the recovery it returns the zero values (a nil error), whatever the deferred closure assigns to its own variable", FuncName(fn))
+				continue
+			}
+			// the closure assigns that result (a captured variable) a non-nil error
+			assigned := false
+			for i, fv := range clo.FreeVars {
+				if i >= len(mc.Bindings) || mc.Bindings[i] != ssa.Value(named) {
+					continue
+				}
+				for _, r := range *fv.Referrers() {
+					if st, ok := r.(*ssa.Store); ok && st.Addr == ssa.Value(fv) && !IsNilConst(st.Val) {
+						assigned = true
+					}
+				}
+			}
+			if assigned {
+				c.Site(df.Pos(), "%s: the recovered panic is returned through the named error result", FuncName(fn))
+			} else {
+				c.Violation("ack:recover:not-assigned:"+FuncName(fn), df.Pos(), "%s recovers from a panic but the deferred closure does not assign the function's error result: the caller sees success", FuncName(fn))
+			}
+		}
+	}
+	if n == 0 {
+		c.Undecided("ack:recover:none", 0, "no recovering function with an error result found (fracSearch, fracFetch and the gRPC interceptors used to be)")
 	}
 }
